@@ -431,3 +431,93 @@ macro_rules! alloc_modify_step {
 
 alloc_modify_step!(allocm_q_n3_f1, 3, 1);
 alloc_modify_step!(allocm_t_n4_f2, 4, 2);
+
+// ------------------------------------------------------------------------------------------
+// Allocator::clone / clone_from with an old->new archetype identifier map (World::clone's
+// allocator half; hashbrown model for the map).
+// ------------------------------------------------------------------------------------------
+
+fn mapped(p: *const u8, old: &[*const u8; 2], new: &[*const u8; 2]) -> *const u8 {
+    if p == old[0] {
+        new[0]
+    } else if p == old[1] {
+        new[1]
+    } else {
+        core::ptr::null()
+    }
+}
+
+macro_rules! alloc_clone_step {
+    ($name:ident, src = ($N:expr, $F:expr), dst = ($DN:expr, $DF:expr), from = $FROM:expr) => {
+        #[kani::proof]
+        #[kani::unwind(10)]
+        pub fn $name() {
+            const N: usize = $N;
+            const F: usize = $F;
+            const DN: usize = $DN;
+            const DF: usize = $DF;
+            let o0 = ident::<RAB>(vec![3]);
+            let o1 = ident::<RAB>(vec![1]);
+            let n0 = ident::<RAB>(vec![3]);
+            let n1 = ident::<RAB>(vec![1]);
+            // SAFETY: the buffers outlive every use of the references below.
+            let (old, new) = unsafe { ([o0.as_ref(), o1.as_ref()], [n0.as_ref(), n1.as_ref()]) };
+            let oldp = [old[0].verif_pointer(), old[1].verif_pointer()];
+            let newp = [new[0].verif_pointer(), new[1].verif_pointer()];
+            let mut map = hashbrown::HashMap::with_hasher(fnv::FnvBuildHasher::default());
+            map.insert(old[0], new[0]);
+            map.insert(old[1], new[1]);
+            let (src, free) = any_allocator::<RAB, N, F>(&old);
+            let before = snap_alloc::<RAB, N>(&src);
+
+            let result = if $FROM {
+                // destination: any other valid allocator, pointing into the *new* archetypes
+                let (mut dst, _dfree) = any_allocator::<RAB, DN, DF>(&new);
+                // SAFETY: the map has an entry for every archetype the source refers to.
+                unsafe { dst.clone_from(&src, &map) };
+                dst
+            } else {
+                // SAFETY: as above.
+                unsafe { src.clone(&map) }
+            };
+
+            vassert!(result.slots.len() == N, "clone has the source's slot count, whatever the destination held");
+            vassert!(result.free.len() == F, "clone has the source's free list length, whatever the destination held");
+            let mut j = 0;
+            while j < F {
+                vassert!(result.free[j] == free[j], "free-list order is copied (so both worlds issue the same identifiers next)");
+                j += 1;
+            }
+            let mut i = 0;
+            while i < N {
+                let s = snap_slot(&result.slots[i]);
+                vassert!(s.generation == before[i].generation, "generation copied");
+                vassert!(s.active == before[i].active, "liveness copied");
+                if s.active {
+                    vassert!(s.loc_index == before[i].loc_index, "row copied");
+                    vassert!(s.loc_ptr == mapped(before[i].loc_ptr, &oldp, &newp), "location points at the clone's own archetype");
+                }
+                i += 1;
+            }
+            vassert!(alloc_inv(&result), "AllocInv holds for the clone");
+            // source untouched
+            let mut i = 0;
+            while i < N {
+                let s = snap_slot(&src.slots[i]);
+                vassert!(
+                    s.generation == before[i].generation && s.active == before[i].active
+                        && s.loc_ptr == before[i].loc_ptr && s.loc_index == before[i].loc_index,
+                    "source untouched by clone"
+                );
+                i += 1;
+            }
+            kani::cover!(true, "reached end");
+        }
+    };
+}
+
+alloc_clone_step!(allocc_q_clone_n3_f1, src = (3, 1), dst = (0, 0), from = false);
+alloc_clone_step!(allocc_q_clonefrom_n2_f1_into_n3_f2, src = (2, 1), dst = (3, 2), from = true);
+alloc_clone_step!(allocc_t_clonefrom_n3_f2_into_n1_f0, src = (3, 2), dst = (1, 0), from = true);
+alloc_clone_step!(allocc_t_clonefrom_n0_into_n2_f2, src = (0, 0), dst = (2, 2), from = true);
+alloc_clone_step!(allocc_t_clone_n4_f4, src = (4, 4), dst = (0, 0), from = false);
